@@ -145,6 +145,17 @@ def check_program(h, res, tag, text, mode, shapes):
             extra = list((got - allv).items())[:3]
             dup = [k for k, v in got.items() if v > allv.get(k, 0)][:3]
             res.add("unlisted:visitor-misses-or-repeats-nodes", {"missing": miss, "extra": extra, "dup": dup}, wit)
+    # (b2) the same walk with the product nodes' empty hooks filled in by hand: now every node must be reached exactly once
+    if "visit_deep_panic" in rep:
+        res.add("unlisted:visitor-panic", rep["visit_deep_panic"], wit)
+    elif "visited_deep" in rep:
+        allv, _ = expected_visits(tree)
+        got = Counter((c, k, a, b) for c, k, a, b in rep["visited_deep"])
+        res.counters["visits (product-node hooks filled in)"] += sum(got.values())
+        if got != allv:
+            res.add("unlisted:visitor-with-product-hooks-misses-or-repeats-nodes", {"missing": list((allv - got).items())[:3], "extra": list((got - allv).items())[:3]}, wit)
+        else:
+            res.counters["visitor-complete (product-node hooks filled in)"] += 1
     # (c) optimiser
     if "opt_panic" in rep:
         res.add("unlisted:optimizer-panic", rep["opt_panic"], wit)
